@@ -498,3 +498,351 @@ pub fn index_case(case: u64, rng: &mut Rng, rep: &mut Report, deep: bool) {
     }
     let _ = writer.wait_merging_threads();
 }
+
+// ---------------------------------------------------------------------------------------------
+// shared helpers for the two dedicated streams below
+
+fn new_ix(rep: &mut Report, sch: &Sch, settings: IndexSettings) -> Option<(Ix, IndexWriter)> {
+    let index = match Index::builder().schema(sch.schema.clone()).settings(settings.clone()).create_in_ram() {
+        Ok(i) => i,
+        Err(e) => {
+            rep.violation("api-error:create", json!({"error": e.to_string(), "settings": settings_json(&settings)}));
+            return None;
+        }
+    };
+    let writer: IndexWriter = match index.writer_with_num_threads(1, 40_000_000) {
+        Ok(w) => w,
+        Err(e) => {
+            rep.violation("api-error:writer", json!({"error": e.to_string()}));
+            return None;
+        }
+    };
+    writer.set_merge_policy(Box::new(NoMergePolicy));
+    let ix = Ix {
+        index,
+        settings: settings.clone(),
+        pool: BTreeMap::new(),
+        alive: BTreeSet::new(),
+        known: BTreeMap::new(),
+        epochs: vec![settings],
+        epoch_of: BTreeMap::new(),
+    };
+    Some((ix, writer))
+}
+
+fn add_doc(rep: &mut Report, sch: &Sch, ix: &mut Ix, writer: &IndexWriter, d: MDoc) -> bool {
+    observe_kinds(rep, &d);
+    if let Err(e) = writer.add_document(d.to_tdoc(sch)) {
+        rep.violation("api-error:add_document", json!({"error": e.to_string(), "profile": d.profile}));
+        return false;
+    }
+    ix.alive.insert(d.id);
+    ix.epoch_of.insert(d.id, ix.epochs.len() - 1);
+    ix.pool.insert(d.id, d);
+    true
+}
+
+// ---------------------------------------------------------------------------------------------
+// stream "vint": stored values whose byte length straddles every VInt width boundary
+// (127/128, 16383/16384, 2^21-1 / 2^21 / 2^21+5), as text, bytes and as a string inside JSON;
+// read through Searcher::doc / StoreReader::get / iter, before and after a merge.
+
+pub fn vint_case(case: u64, rng: &mut Rng, rep: &mut Report, deep: bool) {
+    let sch = sch();
+    let settings = IndexSettings {
+        docstore_compression: gen_compressor(rng),
+        docstore_blocksize: *rng.pick(&[0usize, 16384, 16384, 1 << 20, u32::MAX as usize]),
+        docstore_compress_dedicated_thread: rng.bool(),
+        ..IndexSettings::default()
+    };
+    let (mut ix, mut writer) = match new_ix(rep, sch, settings) {
+        Some(x) => x,
+        None => return,
+    };
+    rep.eval();
+    // which representation carries the > 2 MiB values in this case
+    let big_kind = (case % 3) as usize;
+    let slots = [sch.slot("t_so"), sch.slot("y_s"), sch.slot("j_so")];
+    let mk = |rng: &mut Rng, kind: usize, len: usize| -> (usize, MV) {
+        match kind {
+            0 => (slots[0], MV::Str(gen_pad_text(rng, len))),
+            1 => (slots[1], MV::Bytes(rng.bytes(len))),
+            _ => {
+                let mut ents = vec![("n".to_string(), MV::U64(len as u64)), ("s".to_string(), MV::Str(gen_pad_text(rng, len)))];
+                if rng.bool() {
+                    ents.reverse();
+                }
+                (slots[2], MV::Obj(ents))
+            }
+        }
+    };
+    let small: &[usize] = &[0, 1, 126, 127, 128, 129, 16382, 16383, 16384, 16385];
+    let mut big: Vec<usize> = vec![(1 << 21) - 1, 1 << 21, (1 << 21) + 5];
+    if deep {
+        big.extend([(1usize << 21) + (1 << 14), 2_600_000, 3 * (1 << 20) + 1]);
+    }
+    let mut plan: Vec<(usize, usize)> = vec![];
+    for &l in small {
+        for k in 0..3 {
+            plan.push((k, l));
+        }
+    }
+    for &l in &big {
+        plan.push((big_kind, l));
+    }
+    rng.shuffle(&mut plan);
+    let mut next_id = 1u64;
+    let half = plan.len() / 2;
+    for (i, (kind, len)) in plan.iter().enumerate() {
+        let mut vals = vec![];
+        if rng.bool() {
+            vals.push((sch.slot("u_so"), MV::U64(next_id)));
+        }
+        vals.push(mk(rng, *kind, *len));
+        if rng.chance(1, 3) {
+            // a second value in the same field, also at a boundary
+            let l2 = *rng.pick(&[127usize, 128, 16383, 16384]);
+            vals.push(mk(rng, *kind, l2));
+        }
+        let d = MDoc { id: next_id, sk: 0, vals, profile: "vint-boundary" };
+        next_id += 1;
+        rep.observe("vint_boundary_len", format!("{}:{len}", ["text", "bytes", "json-string"][*kind]));
+        if *len >= (1 << 21) - 1 {
+            rep.count("values_of_2MiB_or_more", 1);
+        }
+        if !add_doc(rep, sch, &mut ix, &writer, d) {
+            return;
+        }
+        if i + 1 == half || i + 1 == plan.len() {
+            if let Err(e) = writer.commit() {
+                rep.violation("api-error:commit", json!({"error": e.to_string(), "settings": settings_json(&ix.settings)}));
+                return;
+            }
+        }
+    }
+    if !check_index(rep, rng, sch, &mut ix, "vint:after-commits", &[]) {
+        return;
+    }
+    let segs = match ix.index.searchable_segment_ids() {
+        Ok(s) => s,
+        Err(e) => {
+            rep.violation("api-error:searchable_segment_ids", json!({"error": e.to_string()}));
+            return;
+        }
+    };
+    rep.count("merges", 1);
+    if let Err(e) = writer.merge(&segs).wait() {
+        rep.violation("api-error:merge", json!({"error": e.to_string(), "settings": settings_json(&ix.settings)}));
+        return;
+    }
+    check_index(rep, rng, sch, &mut ix, "vint:after-merge", &[segs]);
+    let _ = writer.wait_merging_threads();
+}
+
+// ---------------------------------------------------------------------------------------------
+// stream "concurrent": several threads fetch documents of DIFFERENT blocks through ONE shared
+// `Searcher` / ONE shared `StoreReader` (cache 0/1/2/100); every returned document is compared
+// with the model. A serial read of the same segment is done first, so a mismatch here is due to
+// the concurrent access.
+
+struct Hit {
+    what: &'static str,
+    detail: J,
+}
+
+#[allow(clippy::too_many_arguments)]
+fn hammer<F>(fetch: &F, sch: &Sch, docs: &[&MDoc], alive: &[bool], lay: &Layout, nthreads: usize, nfetch: usize, seed: u64) -> (u64, Vec<Hit>)
+where F: Fn(u32) -> Result<TantivyDocument, String> + Sync {
+    let nb = lay.nblocks().max(1);
+    let live: Vec<u32> = (0..alive.len() as u32).filter(|d| alive[*d as usize]).collect();
+    let hits = std::sync::Mutex::new(vec![]);
+    let total = std::sync::atomic::AtomicU64::new(0);
+    let barrier = std::sync::Barrier::new(nthreads);
+    std::thread::scope(|s| {
+        for t in 0..nthreads {
+            let hits = &hits;
+            let total = &total;
+            let barrier = &barrier;
+            let live = &live;
+            s.spawn(move || {
+                let mut rng = Rng::new(tvmon::rng::mix(&[seed, t as u64]));
+                barrier.wait();
+                let r = tvmon::report::guarded(|| {
+                    let mut n = 0u64;
+                    let mut last_block = usize::MAX;
+                    for k in 0..nfetch {
+                        // hop to another block almost every time
+                        let d = loop {
+                            let b = rng.usize_below(nb);
+                            if b == last_block && nb > 1 && !rng.chance(1, 10) {
+                                continue;
+                            }
+                            let (s0, e0) = lay.doc_range(b.min(lay.nblocks().saturating_sub(1)));
+                            let d = if e0 > s0 { rng.range(s0 as u64, e0 as u64 - 1) as u32 } else { *rng.pick(live) };
+                            if alive[d as usize] {
+                                last_block = b;
+                                break d;
+                            }
+                            if rng.chance(1, 4) {
+                                break *rng.pick(live);
+                            }
+                        };
+                        n += 1;
+                        match fetch(d) {
+                            Err(e) => return (n, Some(Hit { what: "error", detail: json!({"thread": t, "fetch_no": k, "doc": d, "error": e}) })),
+                            Ok(got) => {
+                                let mut st = CmpStats::default();
+                                if let Some(mm) = check_doc(sch, docs[d as usize], &got, &mut st) {
+                                    let other = (0..docs.len()).find(|&j| j != d as usize && check_doc(sch, docs[j], &got, &mut st).is_none());
+                                    return (n, Some(Hit { what: "wrong-document", detail: json!({"thread": t, "fetch_no": k, "doc": d,
+                                        "model_block": lay.block_of(d), "is_exactly_other_doc": other,
+                                        "other_doc_block": other.map(|j| lay.block_of(j as u32)), "first_difference": mm.what, "detail": mm.detail}) }));
+                                }
+                            }
+                        }
+                    }
+                    (n, None)
+                });
+                match r {
+                    Ok((n, h)) => {
+                        total.fetch_add(n, std::sync::atomic::Ordering::Relaxed);
+                        if let Some(h) = h {
+                            hits.lock().unwrap().push(h);
+                        }
+                    }
+                    Err(p) => hits.lock().unwrap().push(Hit { what: "panic", detail: json!({"thread": t, "panic_location": p.location, "panic_message": p.message}) }),
+                }
+            });
+        }
+    });
+    (total.into_inner(), hits.into_inner().unwrap())
+}
+
+pub fn concurrent_case(case: u64, rng: &mut Rng, rep: &mut Report, deep: bool) {
+    let sch = sch();
+    let bs = *rng.pick(&[0usize, 1, 8, 16, 64, 100, 256]);
+    let settings = IndexSettings {
+        docstore_compression: gen_compressor(rng),
+        docstore_blocksize: bs,
+        docstore_compress_dedicated_thread: rng.bool(),
+        ..IndexSettings::default()
+    };
+    let (mut ix, mut writer) = match new_ix(rep, sch, settings) {
+        Some(x) => x,
+        None => return,
+    };
+    rep.eval();
+    let ndocs = rng.urange(300, if deep { 2000 } else { 1200 });
+    for i in 0..ndocs {
+        let id = i as u64 + 1;
+        let p = match rng.weighted(&[6, 3, 1, 1]) {
+            0 => Profile::Tiny,
+            1 => Profile::Mixed,
+            2 => Profile::Multi,
+            _ => Profile::Size(rng.urange(50, 600)),
+        };
+        let mut d = gen_doc(rng, sch, id, p);
+        // every document is distinguishable
+        let at = rng.usize_below(d.vals.len() + 1);
+        d.vals.insert(at, (sch.slot("u_so"), MV::U64(id)));
+        if !add_doc(rep, sch, &mut ix, &writer, d) {
+            return;
+        }
+    }
+    if rng.bool() {
+        for _ in 0..rng.urange(1, 20) {
+            let id = rng.range(1, ndocs as u64);
+            writer.delete_term(Term::from_field_u64(sch.id, id));
+            ix.alive.remove(&id);
+        }
+    }
+    if let Err(e) = writer.commit() {
+        rep.violation("api-error:commit", json!({"error": e.to_string(), "settings": settings_json(&ix.settings)}));
+        return;
+    }
+    // several flushes are possible in principle: bring everything into one segment
+    if let Ok(segs) = ix.index.searchable_segment_ids() {
+        if segs.len() > 1 {
+            if let Err(e) = writer.merge(&segs).wait() {
+                rep.violation("api-error:merge", json!({"error": e.to_string()}));
+                return;
+            }
+        }
+    }
+    // serial baseline (also fills `ix.known` with the layout model)
+    if !check_index(rep, rng, sch, &mut ix, "concurrent:serial-baseline", &[]) {
+        return;
+    }
+    let cfg = settings_json(&ix.settings);
+    let rounds = if deep { 3 } else { 2 };
+    let nfetch = if deep { 600 } else { 400 };
+    'caches: for &cache in &[0usize, 1, 2, 100] {
+        let reader: tantivy::IndexReader = match ix
+            .index
+            .reader_builder()
+            .reload_policy(ReloadPolicy::Manual)
+            .doc_store_cache_num_blocks(cache)
+            .try_into()
+        {
+            Ok(r) => r,
+            Err(e) => {
+                rep.violation("api-error:reader", json!({"error": e.to_string()}));
+                return;
+            }
+        };
+        let searcher = reader.searcher();
+        for (ord, sr) in searcher.segment_readers().iter().enumerate() {
+            let info = match ix.known.get(&sr.segment_id()) {
+                Some(i) => i,
+                None => continue,
+            };
+            let docs: Vec<&MDoc> = info.ids.iter().map(|id| &ix.pool[id]).collect();
+            let alive: Vec<bool> = (0..sr.max_doc()).map(|d| sr.alive_bitset().map(|b| b.is_alive(d)).unwrap_or(true)).collect();
+            if !alive.iter().any(|a| *a) {
+                continue;
+            }
+            let lay = &info.layout;
+            rep.observe("concurrent_blocks_class", blocks_class(lay.nblocks()));
+            for round in 0..rounds {
+                let nthreads = *rng.pick(&[4usize, 6, 8]);
+                rep.observe("concurrent_threads", nthreads.to_string());
+                rep.observe("concurrent_cache", cache.to_string());
+                // (a) one shared Searcher
+                let seed = rng.next_u64();
+                let f = |d: u32| searcher.doc::<TantivyDocument>(DocAddress::new(ord as u32, d)).map_err(|e| e.to_string());
+                let (n, hits) = hammer(&f, sch, &docs, &alive, lay, nthreads, nfetch, seed);
+                rep.count("concurrent_fetches_searcher_doc", n);
+                let mut bad = false;
+                for h in hits.into_iter().take(2) {
+                    rep.violation(format!("concurrent:searcher.doc:{}", h.what), json!({"settings": cfg, "cache": cache, "threads": nthreads,
+                        "round": round, "max_doc": sr.max_doc(), "model_blocks": lay.nblocks(), "detail": h.detail}));
+                    bad = true;
+                }
+                // (b) one shared StoreReader
+                let store = match sr.get_store_reader(cache) {
+                    Ok(s) => s,
+                    Err(e) => {
+                        rep.violation("api-error:get_store_reader", json!({"error": e.to_string()}));
+                        return;
+                    }
+                };
+                let seed = rng.next_u64();
+                let f = |d: u32| store.get::<TantivyDocument>(d).map_err(|e| e.to_string());
+                let (n, hits) = hammer(&f, sch, &docs, &alive, lay, nthreads, nfetch, seed);
+                rep.count("concurrent_fetches_store_get", n);
+                for h in hits.into_iter().take(2) {
+                    rep.violation(format!("concurrent:store.get:{}", h.what), json!({"settings": cfg, "cache": cache, "threads": nthreads,
+                        "round": round, "max_doc": sr.max_doc(), "model_blocks": lay.nblocks(), "detail": h.detail}));
+                    bad = true;
+                }
+                if bad {
+                    break 'caches;
+                }
+            }
+        }
+    }
+    if case < 1 {
+        rep.sample(json!({"stream": "concurrent", "settings": cfg, "docs": ndocs, "live": ix.alive.len()}));
+    }
+    let _ = writer.wait_merging_threads();
+}
